@@ -46,6 +46,14 @@ type vfOp struct {
 	Far     int    `json:"far"`     // PDR: FAR ID child (0 = none)
 	Meth    int    `json:"meth"`    // URR: measurement method octet (-1 = IE absent)
 	MInfo   int    `json:"minfo"`   // URR: measurement information octet (-1 = IE absent)
+	// used by the full-stack (L2) scripts; zero values give the L1 behaviour
+	AA     int   `json:"aa"`     // FAR: apply-action word (0: create -> FORW, update -> IE absent)
+	Teid   int   `json:"teid"`   // FAR: outer header creation TEID
+	Gnb    int   `json:"gnb"`    // FAR: outer header creation peer = simulated gNB i (0: no forwarding parameters)
+	Qers   []int `json:"qers"`   // PDR: QER ID children
+	Qfi    int   `json:"qfi"`    // QER: QFI (0: IE absent)
+	Perio  bool  `json:"perio"`  // URR: periodic reporting trigger
+	Period int   `json:"period"` // URR: measurement period in seconds
 }
 
 type vfRep struct {
@@ -403,6 +411,7 @@ func vfNewNet(k int) (*vfNet, error) {
 		if err != nil {
 			return err
 		}
+		vfBigRcvBuf(rc)
 		n.peers = append(n.peers, name)
 		n.conns[name] = c
 		n.raws[name] = rc
@@ -425,6 +434,16 @@ func vfNewNet(k int) (*vfNet, error) {
 	// n9: a node id nobody listens on (reports to it vanish)
 	n.nodes["n9"] = fmt.Sprintf("127.%d.0.99", k)
 	return n, nil
+}
+
+// vfBigRcvBuf enlarges a socket's receive buffer so that bursts emitted in one loop turn are not
+// dropped by the harness's own sockets (SO_RCVBUFFORCE needs CAP_NET_ADMIN; SO_RCVBUF as fallback)
+func vfBigRcvBuf(rc syscall.RawConn) {
+	_ = rc.Control(func(fd uintptr) {
+		if err := syscall.SetsockoptInt(int(fd), syscall.SOL_SOCKET, 33 /* SO_RCVBUFFORCE */, 32<<20); err != nil {
+			_ = syscall.SetsockoptInt(int(fd), syscall.SOL_SOCKET, syscall.SO_RCVBUF, 32<<20)
+		}
+	})
 }
 
 func (n *vfNet) close() {
@@ -559,16 +578,46 @@ func (g *vfGate) waitFor(n uint64, d time.Duration) (vfSnap, bool) {
 
 func vfUint8s(v int) (int, int, int) { return (v >> 2) & 1, (v >> 1) & 1, v & 1 }
 
+// vfGnbIP is set by the L2 executor: address of simulated gNB i
+var vfGnbIP = func(i int) string { return fmt.Sprintf("127.0.1.%d", i) }
+
+func vfAAIE(aa int) *ie.IE {
+	if aa > 255 {
+		return ie.NewApplyAction(uint8(aa), uint8(aa>>8))
+	}
+	return ie.NewApplyAction(uint8(aa))
+}
+
 func vfOpIE(o vfOp) *ie.IE {
 	id := o.ID
 	switch o.Op + "/" + o.Kind {
 	case "create/far":
-		return ie.NewCreateFAR(ie.NewFARID(uint32(id)), ie.NewApplyAction(2))
+		aa := o.AA
+		if aa == 0 {
+			aa = 2
+		}
+		ies := []*ie.IE{ie.NewFARID(uint32(id)), vfAAIE(aa)}
+		if o.Gnb > 0 {
+			ies = append(ies, ie.NewForwardingParameters(ie.NewDestinationInterface(ie.DstInterfaceAccess),
+				ie.NewOuterHeaderCreation(0x0100, uint32(o.Teid), vfGnbIP(o.Gnb), "", 0, 0, 0)))
+		}
+		return ie.NewCreateFAR(ies...)
 	case "update/far":
-		return ie.NewUpdateFAR(ie.NewFARID(uint32(id)))
+		ies := []*ie.IE{ie.NewFARID(uint32(id))}
+		if o.AA > 0 {
+			ies = append(ies, vfAAIE(o.AA))
+		}
+		if o.Gnb > 0 {
+			ies = append(ies, ie.NewUpdateForwardingParameters(ie.NewDestinationInterface(ie.DstInterfaceAccess),
+				ie.NewOuterHeaderCreation(0x0100, uint32(o.Teid), vfGnbIP(o.Gnb), "", 0, 0, 0)))
+		}
+		return ie.NewUpdateFAR(ies...)
 	case "remove/far":
 		return ie.NewRemoveFAR(ie.NewFARID(uint32(id)))
 	case "create/qer":
+		if o.Qfi > 0 {
+			return ie.NewCreateQER(ie.NewQERID(uint32(id)), ie.NewGateStatus(0, 0), ie.NewQFI(uint8(o.Qfi)))
+		}
 		return ie.NewCreateQER(ie.NewQERID(uint32(id)), ie.NewGateStatus(0, 0))
 	case "update/qer":
 		return ie.NewUpdateQER(ie.NewQERID(uint32(id)), ie.NewGateStatus(1, 1))
@@ -586,7 +635,11 @@ func vfOpIE(o vfOp) *ie.IE {
 			e, v, d := vfUint8s(o.Meth)
 			ies = append(ies, ie.NewMeasurementMethod(e, v, d))
 		}
-		ies = append(ies, ie.NewReportingTriggers(0x02, 0x00)) // VOLTH; no periodic (L1)
+		if o.Perio {
+			ies = append(ies, ie.NewReportingTriggers(0x03, 0x00), ie.NewMeasurementPeriod(time.Duration(o.Period)*time.Second))
+		} else {
+			ies = append(ies, ie.NewReportingTriggers(0x02, 0x00)) // VOLTH; not periodic
+		}
 		if o.MInfo >= 0 {
 			ies = append(ies, ie.NewMeasurementInformation(uint8(o.MInfo)))
 		}
@@ -606,6 +659,9 @@ func vfOpIE(o vfOp) *ie.IE {
 		ies := []*ie.IE{ie.NewPDRID(uint16(id)), ie.NewPrecedence(255), ie.NewPDI(pdi...)}
 		if o.Far > 0 {
 			ies = append(ies, ie.NewFARID(uint32(o.Far)))
+		}
+		for _, q := range o.Qers {
+			ies = append(ies, ie.NewQERID(uint32(q)))
 		}
 		for _, u := range o.URRs {
 			ies = append(ies, ie.NewURRID(uint32(u)))
@@ -955,6 +1011,9 @@ func vfNorm(e *vfEvent) {
 	for i := range e.Ops {
 		if e.Ops[i].URRs == nil {
 			e.Ops[i].URRs = []int{}
+		}
+		if e.Ops[i].Qers == nil {
+			e.Ops[i].Qers = []int{}
 		}
 	}
 	if e.Faults == nil {
